@@ -81,10 +81,48 @@ var (
 	bridgeAtomByType = map[reflect.Type]string{}
 )
 
+// bridgeTwinTypes: named types declared in a function scope with the names of the package-level ones. reflect prints
+// them alike ("streams.BNInt"), yet they are different types: a host may well have two types called Level.
+func bridgeTwinTypes() map[string]reflect.Type {
+	type (
+		BNInt     int
+		BNInt8    int8
+		BNInt16   int16
+		BNInt32   int32
+		BNInt64   int64
+		BNUint    uint
+		BNFloat32 float32
+		BNFloat64 float64
+		BNBool    bool
+		BNString  string
+	)
+	return map[string]reflect.Type{
+		"Nint": reflect.TypeOf(BNInt(0)), "Nint8": reflect.TypeOf(BNInt8(0)), "Nint16": reflect.TypeOf(BNInt16(0)),
+		"Nint32": reflect.TypeOf(BNInt32(0)), "Nint64": reflect.TypeOf(BNInt64(0)), "Nuint": reflect.TypeOf(BNUint(0)),
+		"Nfloat32": reflect.TypeOf(BNFloat32(0)), "Nfloat64": reflect.TypeOf(BNFloat64(0)), "Nbool": reflect.TypeOf(BNBool(false)),
+		"Nstring": reflect.TypeOf(BNString("")),
+	}
+}
+
+var bridgeTwinByAtom = bridgeTwinTypes()
+
+func bridgeParamType(atom string, twin bool) (reflect.Type, bool) {
+	if twin {
+		if t, ok := bridgeTwinByAtom[atom]; ok {
+			return t, true
+		}
+	}
+	t, ok := bridgeTypeByAtom[atom]
+	return t, ok
+}
+
 func init() {
 	for _, e := range bridgeTypeList {
 		bridgeTypeByAtom[e.atom] = e.t
 		bridgeAtomByType[e.t] = e.atom
+	}
+	for atom, t := range bridgeTwinByAtom {
+		bridgeAtomByType[t] = atom
 	}
 	Register("bridge", Bridge)
 }
@@ -231,8 +269,9 @@ func bridgeBuildProbe(c *sexp.S) (*bridgeProbe, error) {
 	}
 	sig := c.Find("sig")
 	var in, out []reflect.Type
+	twin := ReaderShape%2 == 1 // every other case declares its named parameter types in another scope (same printed name)
 	for _, a := range sig.Find("params").Args() {
-		t, ok := bridgeTypeByAtom[a.Atom]
+		t, ok := bridgeParamType(a.Atom, twin)
 		if !ok {
 			return nil, fmt.Errorf("unknown type %s", a.Atom)
 		}
@@ -240,7 +279,7 @@ func bridgeBuildProbe(c *sexp.S) (*bridgeProbe, error) {
 	}
 	variadic := false
 	if v := sig.Find("variadic").List[1].Atom; v != "none" {
-		t, ok := bridgeTypeByAtom[v]
+		t, ok := bridgeParamType(v, twin)
 		if !ok {
 			return nil, fmt.Errorf("unknown type %s", v)
 		}
